@@ -746,6 +746,7 @@ def run(ctx):
     items = generate_inputs(ctx)
     check_texts(ctx, items, batch)
     recursion_probe(ctx)
+    check_assumptions(ctx)
     finish_batch(ctx, batch)
     measure_reach(ctx, batch)
     reach_floor(ctx)
@@ -842,16 +843,61 @@ def stop_coverage(ctx, cov):
         pass
 
 
+def check_assumptions(ctx):
+    """re-validate what the reader outcome model assumes about RDKit (never presented as proof)"""
+    from rdkit import Chem
+    from rdkit.Chem import rdqueries
+    from .gen import ring_grammar
+    ok = ring_grammar.accepted_symbols()
+    rng = ctx.rng
+    pools = ['ABCDEFGHIJKLMNOPQRSTUVWXYZ', 'abcdefghijklmnopqrstuvwxyz', '0123456789_', 'éÉßΩλ中ſıİ٣²', ' *$&+-.']
+    bad = []
+    for _ in range(ctx.n(400, 4000)):
+        t = ''.join(rng.choice(rng.choice(pools)) for _ in range(rng.randint(1, 4)))
+        try:
+            Chem.Atom(t)
+            acc = True
+        except RuntimeError:
+            acc = False
+        except Exception as e:
+            bad.append((t, type(e).__name__))
+            continue
+        if acc != (t in ok) and t != '*':
+            bad.append((t, acc))
+    ctx.assumption('A-symbols: Chem.Atom(str) accepts exactly the dumped symbol table, RuntimeError otherwise', not bad, repr(bad[:5]))
+    q = rdqueries.AtomNumEqualsQueryAtom(6)
+    m = Chem.RWMol(Chem.Mol())
+    i = m.AddAtom(q)
+    j = m.AddAtom(rdqueries.AtomNumGreaterQueryAtom(0))
+    a = m.GetAtomWithIdx(i)
+    facts = [a.GetSymbol() == '*', a.GetNumRadicalElectrons() == 0, a.GetFormalCharge() == 0, bool(m)]
+    m.AddBond(i, j, Chem.BondType.UNSPECIFIED)
+    facts.append(str(m.GetBondBetweenAtoms(j, i).GetBondType()) == 'UNSPECIFIED' and m.GetBondBetweenAtoms(i, i) is None)
+    for args in ((i, i), (j, i)):
+        try:
+            m.AddBond(args[0], args[1], Chem.BondType.SINGLE)
+            facts.append(False)
+        except RuntimeError:
+            facts.append(True)
+    ctx.assumption("A-queryatom: query atoms have symbol '*', no radicals/charge; AddBond rejects self and duplicate bonds with RuntimeError",
+                   all(facts), repr(facts))
+
+
 def reach_floor(ctx):
     """generator rot is a machinery failure: the floors are what the check reached when it was built"""
     if ctx.searching:
         return
     s = ctx.stats
-    need = {'impl_query:MolQuery': 100, 'impl_syntax': 500, 'impl_reader': 30, 'impl_notimpl': 10}
+    need = {'impl_query:MolQuery': 300, 'impl_query:ReactionQuery': 50, 'impl_syntax': 1500, 'impl_reader': 400, 'impl_notimpl': 70}
     low = {k: s.get(k, 0) for k, v in need.items() if s.get(k, 0) < v}
     rules = len([k for k in s if k.startswith('impl_rule_')])
-    if rules < 40:
+    if rules < 60:
         low['distinct rules in accepted ASTs'] = rules
+    reach = ctx.extra.get('coverage', {}).get('implementation_reach', {})
+    for f, floor in (('RINGParser/MolQueryRead.py', 325), ('RINGParser/ReactionQueryRead.py', 280), ('RINGParser/Parser.py', 105)):
+        got = reach.get(f, {}).get('executed')
+        if got is not None and got < floor:
+            low['statements executed in ' + f] = got
     if low and not ctx.violations and not ctx.broken:
         raise common.MachineryError('generator reach fell below the floor: %r' % low)
 
@@ -859,13 +905,15 @@ def reach_floor(ctx):
 LEVEL_TEXT = ('Lean 4 theorems for every text of any length and content: on a statically well-ranked grammar table the parser ends in '
               'accepted or a syntax error (never stuck, missing rule, hang or internal exception; termination is Lean\'s own check), '
               'every state keeps (line, col) = line/column of the stream index <= |text| so every reported error lies inside the text, '
-              'accepted text is consumed to its last character, and Read never hangs; the well-rankedness, defined-references and '
-              'non-empty-token checks are kernel-decided over both grammar dictionaries regenerated from the working tree on every run; '
+              'accepted text is consumed to its last character, and Read(text) ends in a query, RINGSyntaxError, RINGReaderError or '
+              'NotImplementedError (no other exception, no hang; the reader part via the child-kind tables of the rules the readers visit); '
+              'well-rankedness, defined references, non-empty tokens and the child-kind tables are kernel-decided over both grammar '
+              'dictionaries regenerated from the working tree on every run; '
               'the model is tied to the code by a correspondence run of outcome class, error position, expected-token set, AST and '
               'atom/bond/label counts. Right level: the quantifier is over all strings, which only a proof covers.')
 LEVEL_NOTE = ('Trusted: Lean kernel; axioms propext/Classical.choice/Quot.sound; the grammar/character/element translators; the '
               'correspondence harness. Modelled not verified: Parser.py, Reader.py, MolQueryRead.py, ReactionQueryRead.py (outcome '
-              'skeleton only: what constraints and query atoms mean is C08). Partial: "no internal exception from the readers" is proved '
-              'up to tree shapes the reader does not expect (C09_read_internal_partial); wall-clock time and the interpreter recursion '
-              'limit (F29) are outside the model.')
+              'skeleton only: what constraints and query atoms mean is C08); RDKit enters through three re-validated assumptions '
+              '(symbol table, query-atom attributes, AddBond preconditions). Outside the model: wall-clock time and the interpreter '
+              'recursion limit (F29, known finding with a token-count bound).')
 TECHNIQUE = 'Lean 4 proof over hand-written model + correspondence check + table translator'
